@@ -9,7 +9,9 @@ META = {
     "rule": "small-scope exhaustive: every area shape H,W <= 5(6) x every unit-step slice with bounds in "
             "{None} U [-(n+2), n+2] on one axis (a few on the other) + chains of 2-3 slices + every split row, both "
             "member orders, 2- and 3-part stacks; exact class (geographic CRS, dyadic extents) compared exactly, "
-            "projected areas far from the origin with tolerance. Non-trivial: slice with a negative / out-of-range / "
+            "projected areas far from the origin with tolerance; dask-coords: the dask coordinate arrays (get_proj_coords / get_lonlats with chunks=) of an area "
+            "and a slice of it (upper-left anchored, interior), and of the parts / the re-assembled whole of a split area, same chunks and dtype, evaluated in one "
+            "dask.compute vs the slice of the parent's numpy coordinates and vs computed alone. Non-trivial: slice with a negative / out-of-range / "
             "None bound that still selects >= 1 row and column, or a chain, or a split. Distinct = distinct canonical input.",
     "assumptions": ["exact class: dyadic extents and pixel sizes make the float extent arithmetic of __getitem__ exact"],
 }
@@ -548,6 +550,183 @@ def suite_coord_histories(ctx):
         ctx.count("coord.history." + cname)
 
 
+def suite_dask_coords(ctx):
+    """the coordinates as dask arrays (get_proj_coords(chunks=), get_lonlats(chunks=)): an area and a slice of it (upper-left anchored
+    slices area[:k, :], area[:k, :m] as well as interior ones), or the parts of a split area, the whole and the re-stacked / re-concatenated
+    whole, asked with the same chunks and dtype and evaluated together in ONE dask.compute (and in one lazy expression).  Each array must
+    have numpy's shape, equal the same slice of the parent's plain numpy coordinates, and equal what it gives when computed alone; an
+    exception in the joint compute is a failure.  Grids with exactly representable geometry (1 km / 250 m pixels on round extents,
+    quarter-degree grids: the sliced area has bit-identical pixel sizes and corner) and grids with arbitrary float extents."""
+    import dask
+    import dask.array as da
+    from pyresample.geometry import StackedAreaDefinition, concatenate_area_defs
+    r = ctx.rng
+    laea = {"proj": "laea", "lat_0": 60.0, "lon_0": 10.0, "ellps": "WGS84"}
+    utm = {"proj": "utm", "zone": 33, "ellps": "WGS84"}
+    merc = {"proj": "merc", "lon_0": 3.0, "ellps": "WGS84"}
+
+    def make_area(kind, W, H, future):
+        if kind == "km":                   # 1 km / 250 m / 3 km pixels on round extents
+            proj, px = r.choice([laea, utm]), r.choice([1000.0, 250.0, 3000.0, 500.0])
+            x0, y0 = r.randrange(-400, 400) * 1000.0 + (500000.0 if proj is utm else 0.0), r.randrange(-400, 400) * 1000.0 + (5500000.0 if proj is utm else 0.0)
+            ext = (x0, y0, x0 + W * px, y0 + H * px)
+        elif kind == "degrees":            # quarter / half / eighth degree grids
+            proj, px = LL, r.choice([0.25, 0.5, 0.125, 1.0])
+            x0, y0 = r.randrange(-100, 100) / 4, r.randrange(-200, 200) / 4
+            ext = (x0, y0, x0 + W * px, y0 + H * px)             # (y0 <= 50, H * px <= 24: below the pole)
+        else:                              # arbitrary numbers
+            proj = r.choice([merc, laea])
+            x0, y0 = r.uniform(-3e5, 3e5), r.uniform(1e3, 3e5)
+            ext = (x0, y0, x0 + W * r.uniform(100, 40000), y0 + H * r.uniform(100, 40000))
+        return (_area_future(proj, W, H, ext) if future else _area(proj, W, H, ext)), ext
+
+    def close(a, b, tol):
+        a, b = np.asarray(a), np.asarray(b)
+        return a.shape == b.shape and bool(np.allclose(a, b, rtol=0, atol=tol, equal_nan=True))
+
+    for it in range(40 if ctx.quick else 250):
+        kind = r.choice(["km", "km", "degrees", "degrees", "arbitrary"])
+        H, W = r.randrange(2, 25), r.randrange(2, 25)
+        future = r.random() < 0.25
+        area, ext = make_area(kind, W, H, future)
+        chunks = r.choice([4096, 4, (3, 5), r.randrange(1, 9), (r.randrange(1, 9), r.randrange(1, 9)), -1])
+        dtype = r.choice([None, None, np.float32, np.float64])
+        dkw = {} if dtype is None else {"dtype": dtype}
+        scale = float(max(1, max(abs(v) for v in ext)))
+        tol_xy = (1e-9 if dtype is not np.float32 else 2e-7) * scale
+        tol_ll = 1e-9 if dtype is not np.float32 else 5e-5
+        with warnings.catch_warnings():
+            warnings.simplefilter("ignore")
+            ref_x, ref_y = area.get_proj_coords()
+            ref_lon, ref_lat = area.get_lonlats()
+            proj4 = area.crs.to_proj4()[:60]
+        # --- (a) an area and a slice of it
+        n_sl = 3 if ctx.quick else 4
+        for k_sl in range(n_sl):
+            form = ["top", "corner", "any", "top-spelled"][k_sl] if k_sl < 3 or not ctx.quick else "any"
+            if form == "top":
+                ys, xs = slice(r.choice([None, 0]), r.randrange(1, H + 1) if H > 1 else 1), r.choice([slice(None), slice(0, None), slice(0, W + 2), slice(-W, None)])
+            elif form == "corner":
+                ys, xs = slice(r.choice([None, 0, -H]), r.randrange(1, H + 1)), slice(r.choice([None, 0]), r.randrange(1, W + 1))
+            elif form == "top-spelled":
+                j = r.randrange(0, H)
+                ys, xs = slice(0, -j if j else None), slice(None)
+            else:
+                ys, xs = _random_chain(r, H, W, 1)[0]
+            ylo, yhi, _ = ys.indices(H)
+            xlo, xhi, _ = xs.indices(W)
+            if not (ylo < yhi and xlo < xhi):
+                continue
+            inp = {"class": "future" if future else "legacy", "proj": proj4, "extent": [float(v) for v in ext], "shape": [H, W],
+                   "slice": [_sl(ys), _sl(xs)], "chunks": chunks, "dtype": None if dtype is None else np.dtype(dtype).name}
+            anchored = ylo == 0 and xlo == 0 and (yhi, xhi) != (H, W)
+            ctx.case("dask-coords.slice", (inp["class"], str(ext), H, W, str(inp["slice"]), str(chunks), str(inp["dtype"])), nontrivial=True,
+                     sample={"input": inp} if anchored else None)
+            ctx.count("dask_coords.slice." + ("upper_left_anchored" if anchored else "full" if (yhi - ylo, xhi - xlo) == (H, W) else "interior"))
+            ctx.count("dask_coords.geometry." + kind)
+            want_shape = ref_x[ys, xs].shape
+            probs = []
+            try:
+                with warnings.catch_warnings(), dask.config.set(scheduler="synchronous"):
+                    warnings.simplefilter("ignore")
+                    child = area[ys, xs]
+                    p_x, p_y = area.get_proj_coords(chunks=chunks, **dkw)
+                    c_x, c_y = child.get_proj_coords(chunks=chunks, **dkw)
+                    p_lon, p_lat = area.get_lonlats(chunks=chunks, **dkw)
+                    c_lon, c_lat = child.get_lonlats(chunks=chunks, **dkw)
+                    lazy = [v.shape for v in (p_x, p_y, p_lon, p_lat, c_x, c_y, c_lon, c_lat)]
+                    alone = [np.asarray(v) for v in (c_x, c_y, c_lon, c_lat)]
+                    order = r.random() < 0.5         # (parent first / child first)
+                    arrs = (p_x, p_y, p_lon, p_lat, c_x, c_y, c_lon, c_lat) if order else (c_x, c_y, c_lon, c_lat, p_x, p_y, p_lon, p_lat)
+                    try:
+                        got = dask.compute(*arrs)
+                    except Exception as e:  # noqa
+                        got = None
+                        probs.append(f"computing the parent's and the slice's coordinates in one dask.compute raised {type(e).__name__}: {str(e)[:120]}")
+                    try:
+                        diff = np.asarray(abs(c_x - p_x[ys, xs]) + abs(c_y - p_y[ys, xs]))
+                        if diff.shape != want_shape or not float(diff.max()) <= 2 * tol_xy:
+                            probs.append(f"the lazy expression child_x - parent_x[slice] has shape {diff.shape} / max {float(diff.max()) if diff.size else None} instead of zeros of shape {want_shape}")
+                    except Exception as e:  # noqa
+                        probs.append(f"the lazy expression child_x - parent_x[slice] raised {type(e).__name__}: {str(e)[:120]}")
+            except Exception as e:  # noqa
+                ctx.fail("AreaDefinition.get_proj_coords", f"dask coordinates of an area and its slice: raised {type(e).__name__}: {str(e)[:160]}", inp, size=H + W)
+                continue
+            if lazy[:4] != [(H, W)] * 4 or lazy[4:] != [want_shape] * 4:
+                probs.append(f"lazy shapes {lazy} are not numpy's {(H, W)} / {want_shape}")
+            site = "AreaDefinition.get_proj_coords"
+            if not (close(alone[0], ref_x[ys, xs], tol_xy) and close(alone[1], ref_y[ys, xs], tol_xy)):
+                probs.append("computed alone, the slice's dask projection coordinates are not the same slice of the parent's coordinates")
+            if not (close(alone[2], ref_lon[ys, xs], tol_ll) and close(alone[3], ref_lat[ys, xs], tol_ll)):
+                probs.append("computed alone, the slice's dask lon/lats are not the same slice of the parent's lon/lats")
+                site = "AreaDefinition.get_lonlats"
+            if got is not None:
+                g = dict(zip(("p_x", "p_y", "p_lon", "p_lat", "c_x", "c_y", "c_lon", "c_lat") if order else ("c_x", "c_y", "c_lon", "c_lat", "p_x", "p_y", "p_lon", "p_lat"), got))
+                if not (close(g["p_x"], ref_x, tol_xy) and close(g["p_y"], ref_y, tol_xy)):
+                    probs.append(f"computed together with its slice, the parent's projection coordinates (shape {np.asarray(g['p_x']).shape}) are not its coordinates (shape {ref_x.shape})")
+                if not (close(g["c_x"], ref_x[ys, xs], tol_xy) and close(g["c_y"], ref_y[ys, xs], tol_xy)):
+                    probs.append(f"computed together with the parent, the slice's projection coordinates (shape {np.asarray(g['c_x']).shape}) are not the same slice "
+                                 f"(shape {want_shape}) of the parent's coordinates")
+                if not (close(g["p_lon"], ref_lon, tol_ll) and close(g["p_lat"], ref_lat, tol_ll)):
+                    probs.append(f"computed together with its slice, the parent's lon/lats (shape {np.asarray(g['p_lon']).shape}) are not its lon/lats (shape {ref_lon.shape})")
+                    site = "AreaDefinition.get_lonlats" if len(probs) == 1 else site
+                if not (close(g["c_lon"], ref_lon[ys, xs], tol_ll) and close(g["c_lat"], ref_lat[ys, xs], tol_ll)):
+                    probs.append(f"computed together with the parent, the slice's lon/lats (shape {np.asarray(g['c_lon']).shape}) are not the same slice (shape {want_shape}) "
+                                 "of the parent's lon/lats")
+                    site = "AreaDefinition.get_lonlats" if len(probs) == 1 else site
+                if not probs and not all(np.array_equal(a_, np.asarray(g[k_]), equal_nan=True) for a_, k_ in zip(alone, ("c_x", "c_y", "c_lon", "c_lat"))):
+                    probs.append("the slice's coordinates computed together with the parent's differ from the same arrays computed alone")
+            if probs:
+                ctx.fail(site, "dask coordinates of an area and a slice of it (same chunks, same dtype): " + "; ".join(probs[:4]), inp,
+                         {"n_problems": len(probs)}, tags={"family": "dask-coords", "anchored": anchored}, size=H + W + len(str(chunks)))
+        # --- (b) the parts of a split area, the whole, the re-concatenated and the re-stacked whole
+        if H < 2 or future:
+            continue
+        k = r.randrange(1, H)
+        inp = {"class": "legacy", "proj": proj4, "extent": [float(v) for v in ext], "shape": [H, W], "split_row": k, "chunks": chunks,
+               "dtype": None if dtype is None else np.dtype(dtype).name}
+        ctx.case("dask-coords.split", (str(ext), H, W, k, str(chunks), str(inp["dtype"])), nontrivial=True, sample={"input": inp})
+        probs = []
+        try:
+            with warnings.catch_warnings(), dask.config.set(scheduler="synchronous"):
+                warnings.simplefilter("ignore")
+                top, bot = area[:k, :], area[k:, :]
+                whole = concatenate_area_defs(top, bot)
+                stack = StackedAreaDefinition(top, bot)
+                names = ["top", "bottom", "concatenated", "stacked", "original"]
+                objs = [top, bot, whole, stack, area]
+                want = [(ref_lon[:k], ref_lat[:k]), (ref_lon[k:], ref_lat[k:]), (ref_lon, ref_lat), (ref_lon, ref_lat), (ref_lon, ref_lat)]
+                if k + 1 < H:                      # a stack with a gap: two members, row-wise concatenation of theirs
+                    low = area[k + 1:, :]
+                    names.append("stack of top and the rows after a gap")
+                    objs.append(StackedAreaDefinition(top, low))
+                    want.append((np.vstack([ref_lon[:k], ref_lon[k + 1:]]), np.vstack([ref_lat[:k], ref_lat[k + 1:]])))
+                perm = list(range(len(objs)))
+                r.shuffle(perm)
+                lazies = [objs[i].get_lonlats(chunks=chunks, **dkw) for i in perm]
+                try:
+                    got = dask.compute(*lazies)
+                except Exception as e:  # noqa
+                    got = None
+                    probs.append(f"computing the lon/lats of {[names[i] for i in perm]} in one dask.compute raised {type(e).__name__}: {str(e)[:120]}")
+                if got is not None:
+                    for i, (glon, glat) in zip(perm, got):
+                        if not (close(glon, want[i][0], tol_ll) and close(glat, want[i][1], tol_ll)):
+                            probs.append(f"lon/lats of '{names[i]}' (shape {np.asarray(glon).shape}) computed together with {[names[j] for j in perm if j != i]} are not "
+                                         f"the corresponding rows (shape {want[i][0].shape}) of the original's lon/lats")
+                xy = [(nm_, o_.get_proj_coords(chunks=chunks, **dkw)) for nm_, o_ in (("top", top), ("concatenated", whole), ("original", area))]
+                gxy = dask.compute(*[v for _, v in xy])
+                for (nm_, _), (gx, gy), rows_ in zip(xy, gxy, (slice(0, k), slice(None), slice(None))):
+                    if not (close(gx, ref_x[rows_], tol_xy) and close(gy, ref_y[rows_], tol_xy)):
+                        probs.append(f"projection coordinates of '{nm_}' (shape {np.asarray(gx).shape}) computed together with the other parts are not the rows of the original's")
+        except Exception as e:  # noqa
+            probs.append(f"raised {type(e).__name__}: {str(e)[:160]}")
+        if probs:
+            ctx.fail("geometry.StackedAreaDefinition.get_lonlats" if any("stack" in p_ for p_ in probs) and not any("'top'" in p_ or "'original'" in p_ for p_ in probs)
+                     else "AreaDefinition.get_lonlats", "dask coordinates of the parts of a split area and of the re-assembled area (same chunks, same dtype): "
+                     + "; ".join(probs[:4]), inp, {"n_problems": len(probs)}, tags={"family": "dask-coords-split"}, size=H + W + len(str(chunks)))
+
+
 def run(ctx):
     suite_slices(ctx)
     suite_split_concat(ctx)
@@ -555,3 +734,4 @@ def run(ctx):
     suite_swath(ctx)
     suite_coord_histories(ctx)
     suite_slices_future(ctx)
+    suite_dask_coords(ctx)
